@@ -29,11 +29,12 @@ func init() {
 			{Name: "l3-rendering-under-backpressure", Fn: scnC14(3), Weight: 1},
 		},
 		Rule: "one to three correlated sessions (login bound before the first record or after k records) with up to 40 kernel events each drawn from all record groups of the kernel-audit world model " +
-			"(simple and compound events, success=yes/no, res=success/failed/1/0, with/without EXECVE, EOE- and PROCTITLE-terminated) (incl. SELinux denials led by an AVC record) pushed through the real Read loop (parser, reassembler, tickers, tracker), and in a fifth of the runs through the assembled daemon on simulated pipes " +
+			"(simple and compound events, success=yes/no, res=success/failed/1/0, with/without EXECVE, EOE- and PROCTITLE-terminated or unterminated = delivered by the maintenance goroutine after the time-out) (incl. SELinux denials led by an AVC record) pushed through the real Read loop (parser, reassembler, tickers, tracker), and in a fifth of the runs through the assembled daemon on simulated pipes " +
 			"with a hand-over buffer of 1-64 records and an output write that stalls for 0.5-3 simulated seconds (back-pressure up to the audit pipe); " +
 			"each UserAction is matched to its kernel event by timestamp and compared with generator ground truth (outcome, session, timestamp) and with aucoalesce run on exactly those records (action/how/object/process_args); " +
-			"identity immutability over the whole session; non-trivial = at least 3 UserActions including a failed one or one with arguments; distinct = distinct (stream hash, schedule hash)",
+			"identity immutability over the whole session; a share of the runs under the race detector (the parser's and the maintenance goroutine's deliveries overlap); non-trivial = at least 3 UserActions including a failed one or one with arguments; distinct = distinct (stream hash, schedule hash)",
 		Quick: 6000, Thorough: 150000,
+		Race: true, RaceQuick: 96, RaceThorough: 6000,
 	})
 	register(&propDef{
 		ID: "C15", Level: "fault_enumeration",
@@ -43,7 +44,7 @@ func init() {
 		},
 		Rule: "boundary: records of 2-3 kernel events (<=4 records each) interleaved in a taped merge order that keeps per-event order, EOE- and PROCTITLE-terminated groups and groups with neither (complete only by the reassembler's time-out), empty lines, arriving after a taped quiet period of 0-3 simulated seconds, fed to the real parseAuditLogs + reassembler + reassembler callback around a counting correlator; " +
 			"read-faults: audit streams for bound sessions through the real Read with one fault enumerated within each group of runs: malformed line at position p, write error from the k-th event on or at the k-th event only, invalid login {pid 0, nil source, empty credential} at a taped point (for a PID nothing is known about, or for a session that is already waiting for its login), " +
-			"unparsable PID in a LOGIN record (letters, 0x.., 0b.., 0o.., digit separators, exponent), two failures in one run, no fault (half of these with the records of one compound event arriving in two bursts 0.3-0.8 reassembler time-outs apart around a record of another event), a single transient write failure at the k-th event of a hold-queue flush; non-trivial = records of different events were interleaved (boundary) or the fault fired before the end of the stream (faults); distinct = distinct (stream hash, fault, position, schedule hash)",
+			"unparsable PID in a LOGIN record (letters, 0x.., 0b.., 0o.., digit separators, exponent), two failures in one run, cancellation at a taped step with records queued (every record taken off the stream by then still reaches the correlator), no fault (half of these with the records of one compound event arriving in two bursts 0.3-0.8 reassembler time-outs apart around a record of another event), a single transient write failure at the k-th event of a hold-queue flush; non-trivial = records of different events were interleaved (boundary) or the fault fired before the end of the stream (faults); distinct = distinct (stream hash, fault, position, schedule hash)",
 		Quick: 8000, Thorough: 200000,
 	})
 }
@@ -72,7 +73,14 @@ func scnC14At(rc *RunCtx, level int) {
 			ne = 1 + t.Choose(8, "nevents.short")
 		}
 		for i := 0; i < ne; i++ {
-			s.Events = append(s.Events, GenAction(t, k, s.Ses, pid, s.UID))
+			e := GenAction(t, k, s.Ses, pid, s.UID)
+			if e.NRec > 2 && t.Choose(8, "unterminated") == 7 {
+				// neither EOE nor PROCTITLE: the group is delivered by the maintenance goroutine
+				// once it has timed out, possibly while the parser delivers another one
+				e.Unterminated()
+				rc.Sim.Count("reassembler_unterminated_group")
+			}
+			s.Events = append(s.Events, e)
 		}
 		if t.Choose(2, "end") == 1 {
 			s.Events = append(s.Events, k.UserMsg("USER_END", s.Ses, pid, s.UID, t.Choose(3, "ok") != 0, t.Choose(2, "rf")))
@@ -427,7 +435,7 @@ func scnC15Boundary(rc *RunCtx) {
 
 var c15Faults = []string{"malformed-line", "malformed-line", "malformed-line", "write-error", "write-error", "write-error",
 	"invalid-login-pid0", "invalid-login-nil-source", "invalid-login-empty-cred", "bad-pid-in-login-record", "two-failures", "none",
-	"malformed-line", "write-error-once", "flush-transient-write-error", "flush-transient-write-error"}
+	"cancel-mid-stream", "write-error-once", "flush-transient-write-error", "flush-transient-write-error"}
 
 func scnC15Faults(rc *RunCtx) {
 	t := rc.Spec
@@ -440,6 +448,10 @@ func scnC15Faults(rc *RunCtx) {
 	n := 2 + t.Choose(8, "nevents")
 	for i := 0; i < n; i++ {
 		evs = append(evs, GenAction(t, k, "410", pid, 1000))
+	}
+	if t.Choose(2, "ends") == 1 {
+		// the session ends inside the stream: its last event is the credential disposal
+		evs = append(evs, k.UserMsg("CRED_DISP", "410", pid, 1000, true, 0))
 	}
 	var lines []string
 	evEnd := []int{} // index in lines after which event i is complete
@@ -501,6 +513,19 @@ func scnC15Faults(rc *RunCtx) {
 		rec.FailAt = 1 + t.Choose(len(evs), "k")
 		rec.FailAll = fault == "write-error"
 		wantEvents = rec.FailAt - 1
+		if fault == "write-error-once" && t.Choose(2, "busy.loop") == 1 {
+			// the processor's own loop is busy taking logins of other sshd processes while the
+			// failing write happens on the parser's side
+			rc.Sim.Count("c15.logins_during_write_failure")
+			rc.Sim.Spawn("world.other-logins", func() {
+				for i := 0; i < 3; i++ {
+					c0, c1 := simrt.Send(logins).V(MakeRUL(GenLogin(simrt.NewReplayTape(uint64(i+1), nil), pid+10+i, 20+i), time.Now())), simrt.Recv(ctx.Done())
+					if simrt.Select("world.other-logins", false, c0, c1) != 0 {
+						return
+					}
+				}
+			})
+		}
 	case "bad-pid-in-login-record":
 		// a second session whose LOGIN record has an unparsable PID
 		bad := k.Login("411", 1, 1001)
@@ -597,6 +622,15 @@ func scnC15Faults(rc *RunCtx) {
 		rc.Sim.Count("login.invalid." + strings.TrimPrefix(fault, "invalid-login-"))
 		wantEvents = -1
 	}
+	if fault == "cancel-mid-stream" {
+		// the processor is told to stop at a taped step while records are queued and an output
+		// write may be in progress: whatever it took off the stream by the time it has returned
+		// was parsed, so it reaches the correlator (the reassembler is flushed on the way out)
+		runToStepOrState(rc, func() bool { return res.v }, t.Choose(400, "cancel.step"), 0)
+		cancel()
+		rc.Sim.Count("ctx.cancel")
+		wantEvents = -1
+	}
 	// settle: Read must return within 1 simulated second once the fault has been consumed
 	returned := false
 	for i := 0; i < 40; i++ {
@@ -641,6 +675,28 @@ func scnC15Faults(rc *RunCtx) {
 					}
 				}
 			}
+		}
+		return
+	}
+	if fault == "cancel-mid-stream" {
+		if !returned {
+			rc.Fail("C15", "no-return-after-cancel", "Read did not return after cancellation: %v", rc.Sim.Live())
+			return
+		}
+		consumed := len(lines) - len(audits)
+		want := 0
+		for i, end := range evEnd {
+			start := end - evs[i].NRec
+			for j := start; j < end && j < consumed; j++ {
+				if strings.Contains(lines[j], " ses=410 ") || strings.HasSuffix(lines[j], " ses=410") {
+					want++
+					break
+				}
+			}
+		}
+		rc.R.NonTrivial = consumed > 0 && consumed < len(lines)
+		if len(rec.Events) < want {
+			rc.Fail("C15", "consumed-records-lost", "%d of %d lines had been taken off the audit stream when Read returned after cancellation; they belong to %d events of the bound session, but only %d were handed on and written", consumed, len(lines), want, len(rec.Events))
 		}
 		return
 	}
